@@ -31,6 +31,11 @@ def churn_session(r, cycles, server_side=False, srv=False, back=False):
                 msg('wl_data_device', 6, 'selection', cs, [{'k': 'obj', 'type': 'wl_data_offer', 'id': i}])
             if r.random() < 0.3:
                 msg('wl_data_offer', i, 'finish', not cs, [])
+            if r.random() < 0.3:
+                # a destructor request is a message like any other: the object lives until its id is handed out again
+                msg('wl_data_offer', i, 'destroy', not cs, [])
+                if r.random() < 0.5:
+                    msg('wl_data_offer', i, 'finish', not cs, [])
         else:
             msg('wl_surface', 4, 'frame', not cs, [{'k': 'new', 'type': 'wl_callback', 'id': 5}])
             if r.random() < 0.4:
